@@ -299,7 +299,8 @@ func CheckC15(tier string) int {
 	t0 := time.Now()
 	rp := rep.NewReporter("C15")
 	kf := rep.LoadFindings()
-	extra := []string{"SPECIFICATION Spec\nCONSTANTS\n  Sigma <- SigmaS\n  MaxLen = 6\n  AliasU <- AliasNone\n  NTasks = 2\n  NameU <- SuggNames\n  Letters <- LettersQ\nCONSTRAINT Emit\nCHECK_DEADLOCK FALSE\n"}
+	extra := []string{"SPECIFICATION Spec\nCONSTANTS\n  Sigma <- SigmaW\n  MaxLen = 5\n  AliasU <- AliasW\n  NTasks = 2\n  NameU <- WildNames\n  Letters <- LettersQ\nCONSTRAINT Emit\nCHECK_DEADLOCK FALSE\n",
+		"SPECIFICATION Spec\nCONSTANTS\n  Sigma <- SigmaS\n  MaxLen = 6\n  AliasU <- AliasNone\n  NTasks = 2\n  NameU <- SuggNames\n  Letters <- LettersQ\nCONSTRAINT Emit\nCHECK_DEADLOCK FALSE\n"}
 	if tier == "thorough" {
 		extra = append(extra, "SPECIFICATION Spec\nCONSTANTS\n  Sigma <- SigmaQ\n  MaxLen = 2\n  AliasU <- AliasQ2\n  NTasks = 3\n  NameU <- NoNames\n  Letters <- LettersQ\nCONSTRAINT Emit\nCHECK_DEADLOCK FALSE\n")
 	}
